@@ -46,16 +46,20 @@ Example ex_cut :
        mkrec 18 3 2 0 7 1 0 2 1604 8 0 [2; 2; 0; 0] ].
 Proof. vm_compute. reflexivity. Qed.
 
-(* The unrestricted linking statement is false of the code: a continuing fragment at time 0 that is
-   the first record of its channel matches the initial expected_next_start = 0 while
-   last_record_seen = -1, and `next_record[-1] = i` writes into the LAST record's slot. *)
+(* Documentation of the pinned snapshot (before fix d422fcc): there the linking statement was false
+   of the code: a continuing fragment at time 0 that is the first record of its channel matched the
+   initial expected_next_start = 0 while last_record_seen = -1, and `next_record[-1] = i` wrote
+   into the LAST record's slot.  The repaired loop gives no link on the same input. *)
 Definition time0_records : list rec :=
   [ mkrec 0 4 1 0 8 1 0 0 0 0 0 [1; 1; 1; 1];
     mkrec 5 4 1 1 4 0 0 0 0 0 0 [1; 1; 1; 1] ].
 
+Example time0_repaired : record_links time0_records = Ok ([-1; -1], [-1; -1]).
+Proof. vm_compute. reflexivity. Qed.
+
 Lemma record_links_time0_witness :
   exists rs prev next j i,
-    Forall (fun r => 0 <= r_ch r) rs /\ record_links rs = Ok (prev, next) /\
+    Forall (fun r => 0 <= r_ch r) rs /\ record_links_pinned rs = Ok (prev, next) /\
     0 <= j < zlen rs /\ 0 <= i /\ nthZ next j = i /\ ~ linked (spr_of rs) rs j i.
 Proof.
   exists time0_records, [-1; -1], [-1; 0], 1, 0.
